@@ -279,9 +279,19 @@ func c18HookEval(tier string, i int) CaseResult {
 	pt := c18PublicTools[i/3]
 	style := i % 3
 	cr := CaseResult{Desc: fmt.Sprintf("WithInputStruct[%s](%s) vs VerifSchemaForType", pt.name, c18Styles[style]), Nontrivial: true}
+	// another tool is declared from the same struct type first and extended with builder options (a
+	// pagination cursor, say): what one tool adds to its schema is no business of the next one
+	other := pt.mk(style)
+	mcp.WithString("cursor", mcp.Required(), mcp.Description("added by the other tool"))(other)
+	mcp.WithNumber("limit")(other)
 	tool := pt.mk(style)
 	pub := hx.CanonOf(tool.InputSchema)
 	pubOut := hx.CanonOf(tool.OutputSchema)
+	if strings.Contains(pub, `"cursor"`) || strings.Contains(pubOut, `"cursor"`) || strings.Contains(pub, `"limit"`) {
+		cr.Violations = append(cr.Violations, V("schema-shared-between-tools:"+c18Styles[style], "%s: a second tool declared from the same struct type carries the parameters another tool added to its own schema with builder options: %s", cr.Desc, truncate(pub, 300)))
+		cr.ObsKey = "shared"
+		return cr
+	}
 	js, fault := c18Generate(pt.t, style)
 	if fault != "" {
 		cr.Broken = fault
